@@ -67,6 +67,9 @@ OBLIGATIONS = [
 SRC_OBLIGATIONS = [
     # source-level tie (Api/SrcProg*.v): the programs regenerated from today's source denote the scripts above
     "C13_src_estimate_pure", "C13_src_mcmc_call_clean", "C13_src_scipy_call_pure", "C13_src_simulate_pure", "C13_src_settings_copied", "C13_src_examples",
+    # the flow check on the generated programs, symbolically (Api/SrcFlow*.v)
+    "C13_src_mcmc_history_independent", "C13_src_mcmc_repeat_same_answer", "C13_src_estimate_history_independent",
+    "C13_src_scipy_flow_refuted", "C13_src_flow_examples",
 ]
 OBLIGATIONS += SRC_OBLIGATIONS
 # the settings object itself (Api/Settings*.v; T1 harness/translate/settings.py, T2 harness/props/c13_settings.py)
